@@ -736,6 +736,43 @@ REQUIRED_STRATA = [
 ]
 
 
+def _known_finding_stream(ck):
+    """F-C11-a, regenerated deterministically: data sheets with inferred models (no data-model
+    module).  Reported as known only if trigger AND discrepancy pattern match; fixed code passes
+    silently; anything else is a violation."""
+    from rpft.parsers.creation.contentindexparser import ContentIndexParser
+
+    case = {"fresh": {"F0": [["r0", 1, "x", "y"], ["r1", 0, "y", "y"]]},
+            "ops": [{"type": "", "sources": ["F0"], "new_name": "", "expr": "", "order": ""},
+                    {"type": "sort", "sources": ["F0"], "new_name": "D0", "expr": "a", "order": ""}]}
+    wb = workbook(case, 2)
+    wb["content_index"] = (wb["content_index"][0], [[c if i != 3 else "" for i, c in enumerate(r)] for r in wb["content_index"][1]])
+    lg = logging.getLogger("main")
+    old = lg.level
+    lg.setLevel(logging.CRITICAL + 1)
+    try:
+        p = ContentIndexParser(_reader("mem", wb), None)
+        rows = {n: [content(r.dict()) for r in p.get_data_sheet_rows(n).values()] for n in p.data_sheets}
+        want = {"F0": [("r0", "1", "x", "y"), ("r1", "0", "y", "y")], "D0": [("r1", "0", "y", "y"), ("r0", "1", "x", "y")]}
+        ck.count("known_finding_stream.cases")
+        if rows != want:
+            ck.violation("inferred-model data sheets: registered rows differ from the statement's reading", {"case": case, "got": rows, "expected": want, "data_model": None})
+            return
+        try:
+            d = p.data_sheets_to_dict()
+        except AttributeError as e:
+            if "'NoneType' object has no attribute '__name__'" in str(e):
+                ck.known("F-C11-a", "save_data_sheets fails with AttributeError when no data-model module is given (inferred models)", {"case": case, "exception": repr(e)})
+            else:
+                ck.violation("data_sheets_to_dict raised on inferred-model data sheets", {"case": case, "exception": repr(e)})
+            return
+        got = {n: [content(r) for r in sh["rows"]] for n, sh in d["sheets"].items()}
+        if got != want or list(d["sheets"]) != list(want):
+            ck.violation("save_data_sheets (inferred models) does not list exactly the registered rows", {"case": case, "got": got, "expected": want})
+    finally:
+        lg.setLevel(old)
+
+
 def _run(ck, quick):
     # corpus: fixed boundary cases first
     drv = core.Driver()
@@ -758,6 +795,8 @@ def _run(ck, quick):
                 ck.count(s)
     finally:
         shutil.rmtree(tmp, ignore_errors=True)
+
+    _known_finding_stream(ck)
 
     n_valid = 12000 if quick else 120000
     n_bad = 1200 if quick else 12000
